@@ -203,3 +203,178 @@ Print Assumptions C05_lowlevel_run_delay.
 Print Assumptions C05_lowlevel_read_frozen.
 Print Assumptions C05_lowlevel_needs_at_rest_refuted.
 Print Assumptions C05_lowlevel_needs_nodup_refuted.
+
+
+(* ================================================================================================================
+   ONLINE TRAINING OF A MODEL (Model.train) inside the formal model: model/TrainModel.v on top of ModelSem (forward, proxies,
+   clamps) and Online.v (RLS / LMS); tied to /repo by run/RunTrain.v (tools/props/trainmodel.py).  [fb_seen tm force prev s S d]
+   is the value node d is handed when it asks for its feedback during the step that Model.train takes from state
+   S = (states, readout parameters, proxies frozen by the previous step's learning), [prev] being the previous step of the
+   same call (None: first step), [s] the current one. *)
+From RV Require Import model.Online model.TrainModel proofs.TrainModel_proofs.
+
+Section C05_train.
+Context {F : Type} `{Num F}.
+Notation vec := (list F).
+Notation env := (@env F).
+Notation ndesc := (@ndesc F).
+Notation tmodel := (@tmodel F).
+Notation tstep := (@tstep F).
+Notation tstate := (@tstate F).
+Notation params := (@params F).
+
+(* force_teachers = True, targets given as ARRAYS: a receiver d whose sender is the trained readout r is handed zeros of the
+   target's length at the first step of a call and the target of the PREVIOUS step afterwards - for every state S, i.e.
+   whatever the readout's parameters, its own outputs and learn_every are. *)
+Theorem C05_train_forced_array_first (tm : tmodel) s (S : tstate) (d : ndesc) r y :
+  NoDup (map nid (order (base tm))) -> In d (order (base tm)) -> nfb d = Some (FbNode r) ->
+  stgt s (nid d) = None -> stgt s r = Some y ->
+  fb_seen tm true None s S d = Some (vzeros (length y)).
+Proof. exact (fb_seen_forced_first tm s S d r y). Qed.
+Theorem C05_train_forced_array_later (tm : tmodel) p s (S : tstate) (d : ndesc) r y :
+  NoDup (map nid (order (base tm))) -> In d (order (base tm)) -> nfb d = Some (FbNode r) ->
+  stgt p (nid d) = None -> stgt p r = Some y ->
+  fb_seen tm true (Some p) s S d = Some y.
+Proof. exact (fb_seen_forced_later tm p s S d r y). Qed.
+(* the same along a whole call: at step j the receiver is handed zeros (j = 0) or Y[j-1], from any starting state *)
+Theorem C05_train_forced_array_trace (tm : tmodel) k single steps (S0 : tstate) j (d : ndesc) r dflt :
+  NoDup (map nid (order (base tm))) -> In d (order (base tm)) -> nfb d = Some (FbNode r) ->
+  (forall s, In s steps -> stgt s (nid d) = None /\ exists y, stgt s r = Some y) ->
+  j < length steps ->
+  let '(Sj, pj) := tstate_after tm k single true 0 None steps S0 j in
+  fb_seen tm true pj (nth j steps dflt) Sj d =
+    match j with
+    | 0 => option_map (fun y => vzeros (length y)) (stgt (nth 0 steps dflt) r)
+    | S j' => stgt (nth j' steps dflt) r
+    end.
+Proof. exact (train_forced_feedback_trace tm k single steps S0 j d r dflt). Qed.
+
+(* force_teachers = False: the readout's OWN output of the previous step - its state when the call started at the first
+   step, so that the value is carried across successive train calls *)
+Theorem C05_train_unforced_own_output (tm : tmodel) prev s (e : env) (P : params) (d : ndesc) r :
+  nfb d = Some (FbNode r) -> fb_seen tm false prev s (e, P, no_pov) d = Some (st (e r)).
+Proof. exact (fb_seen_unforced tm prev s e P d r). Qed.
+Theorem C05_train_unforced_trace (tm : tmodel) k single steps (e0 : env) (P0 : params) j (d : ndesc) r dflt :
+  nfb d = Some (FbNode r) ->
+  let '(Sj, pj) := tstate_after tm k single false 0 None steps (e0, P0, no_pov) j in
+  fb_seen tm false pj (nth j steps dflt) Sj d = Some (st (fst (fst Sj) r)).
+Proof. exact (train_unforced_feedback_trace tm k single steps e0 P0 j d r dflt). Qed.
+
+(* force_teachers = True, targets given by a TEACHER NODE t of the model (Y = node, or {readout: node}): forced exactly like
+   array targets (Model.train since 7fe3c48: the zero proxy before the first step, `set_state_proxy(teacher())` after EVERY
+   step).  The receiver is handed zeros of the readout's output dimension at the first step of every call ... *)
+Theorem C05_train_forced_teacher_first (tm : tmodel) s (e : env) (P : params) (d : ndesc) rn (r : @rspec F) t :
+  NoDup (map nid (order (base tm))) -> In d (order (base tm)) -> nfb d = Some (FbNode rn) ->
+  find_r tm rn = Some r -> rtgt r = TNode t ->
+  stgt s (nid d) = None -> stgt s rn = None ->
+  fb_seen tm true None s (e, P, init_pov tm true) d = Some (vzeros (rodim r)).
+Proof. exact (fb_seen_teacher_first tm s e P d rn r t). Qed.
+(* ... and, after any successful step, the teacher node's output of that step - whether learn_every selected it or not *)
+Theorem C05_train_forced_teacher_later (tm : tmodel) k single i prev s s' (S : tstate) e1 P1 pov1 (d dr : ndesc) (r : @rspec F) t :
+  NoDup (map nid (order (base tm))) -> In d (order (base tm)) -> nfb d = Some (FbNode (nid dr)) ->
+  In dr (order (base tm)) -> find_r tm (nid dr) = Some r -> rtgt r = TNode t ->
+  stgt s (nid d) = None -> stgt s (nid dr) = None ->
+  train_step tm k single true i prev s S = ((e1, P1, pov1), true) ->
+  fb_seen tm true (Some s) s' (e1, P1, pov1) d = Some (st (e1 t)).
+Proof. exact (fb_seen_teacher_later tm k single i prev s s' S e1 P1 pov1 d dr r t). Qed.
+(* along a whole successful call, for every learn_every: zeros at step 0, the teacher's output of step j-1 at step j *)
+Theorem C05_train_forced_teacher_trace (tm : tmodel) k single steps (e0 : env) (P0 : params) S2 outs j (d dr : ndesc) (r : @rspec F) t dflt :
+  NoDup (map nid (order (base tm))) -> In d (order (base tm)) -> nfb d = Some (FbNode (nid dr)) ->
+  In dr (order (base tm)) -> find_r tm (nid dr) = Some r -> rtgt r = TNode t ->
+  (forall s, In s steps -> stgt s (nid d) = None /\ stgt s (nid dr) = None) ->
+  TrainModel.train_from tm k single true 0 None steps (e0, P0, init_pov tm true) = (S2, outs, true) ->
+  j < length steps ->
+  let '(Sj, pj) := tstate_after tm k single true 0 None steps (e0, P0, init_pov tm true) j in
+  fb_seen tm true pj (nth j steps dflt) Sj d =
+    Some (match j with 0 => vzeros (rodim r) | S _ => st (fst (fst Sj) t) end).
+Proof. exact (train_teacher_feedback_trace tm k single steps e0 P0 S2 outs j d dr r t dflt). Qed.
+
+(* the readout parameters change on the steps selected by learn_every only *)
+Theorem C05_train_params_only_at_gated_steps (tm : tmodel) k single force i prev s (S : tstate) :
+  gate k single i = false -> snd (fst (fst (train_step tm k single force i prev s S))) = snd (fst S).
+Proof. exact (train_step_ungated_params tm k single force i prev s S). Qed.
+
+(* Teacher-forced training: let U be a set of nodes closed under predecessors, containing no readout, in which every feedback
+   receiver is fed by a readout that has an array target at every step, or by a readout taught by a teacher node of U.  Two
+   successful train calls on the same steps from the same states give the nodes of U the same states at every step and at the
+   end, WHATEVER learn_every and the readouts' parameters are in each ([selU]: the entries of the per-step outputs that belong
+   to U). *)
+Theorem C05_train_forced_states_indep (tm : tmodel) (U : nat -> Prop) k k' reset steps (e : env) (P P' : params)
+        e1 P1 o1 e1' P1' o1' :
+  (forall n p, U n -> In p (parents (base tm) n) -> U p) -> (forall n, U n -> find_r tm n = None) ->
+  NoDup (map nid (order (base tm))) ->
+  (forall s (d : ndesc), In s steps -> In d (order (base tm)) -> U (nid d) ->
+     nfb d = None \/ exists r, nfb d = Some (FbNode r) /\ stgt s (nid d) = None /\
+                               ((exists y, stgt s r = Some y) \/ (stgt s r = None /\ exists t, taughtU tm U r t))) ->
+  TrainModel.train_call tm k true reset steps (e, P) = (e1, P1, o1, true) ->
+  TrainModel.train_call tm k' true reset steps (e, P') = (e1', P1', o1', true) ->
+  agreeU U e1 e1' /\ Forall2 (selU tm U) o1 o1'.
+Proof. exact (train_call_forced_states_indep tm U k k' reset steps e P P' e1 P1 o1 e1' P1' o1'). Qed.
+End C05_train.
+
+(* ---- non-vacuity at Q.  R(x + fb/2) >> readout (RLS, bias, alpha = 1), R <<= readout; X = 1 2 1 3, Y = 1 3 2 1. *)
+Definition exT_base : @model Q :=
+  mkModel [mkND 0 (kfwd (KFbAdd (1#2))) (Some (FbNode 1)) 1; mkND 1 (kfwd KId) None 1]%Q (fun n => match n with 1 => [0] | _ => [] end) [1].
+Definition exT : @tmodel Q := mkTM exT_base [mkRS 1 (RuleRLS true) 1 TArr].
+Definition exT_P0 : @params Q := fun _ => rls_init true 1 1 1%Q.
+Definition exT_e0 : @env Q := fun _ => mkNS [0%Q] [].
+Definition exT_steps (xy : list (Q * Q)) : list (@tstep Q) :=
+  map (fun p => mkTS (fun n => match n with 0 => Some [fst p] | _ => None end) (fun n => match n with 1 => Some [snd p] | _ => None end)) xy.
+Definition exT_xy := [(1, 1); (2, 3); (1, 2); (3, 1)]%Q.
+Definition exT_recv : @ndesc Q := mkND 0 (kfwd (KFbAdd (1#2)%Q)) (Some (FbNode 1)) 1.
+Definition exT_dflt : @tstep Q := mkTS (fun _ => None) (fun _ => None).
+Definition exT_seen (tm : @tmodel Q) (d : @ndesc Q) k force steps S0 :=
+  map (fun j => let '(Sj, pj) := tstate_after tm k false force 0 None steps S0 j in fb_seen tm force pj (nth j steps exT_dflt) Sj d)
+      (seq 0 (length steps)).
+(* forced: the receiver is handed 0, Y0, Y1, Y2 for learn_every = 1 and 2 alike; its outputs are x + half of that *)
+Example C05_train_forced_example :
+  exT_seen exT exT_recv 1 true (exT_steps exT_xy) (exT_e0, exT_P0, no_pov) = [Some [0]; Some [1]; Some [3]; Some [2]]%Q /\
+  exT_seen exT exT_recv 2 true (exT_steps exT_xy) (exT_e0, exT_P0, no_pov) = [Some [0]; Some [1]; Some [3]; Some [2]]%Q /\
+  (let '(_, _, o, ok) := train_call exT 2 true false (exT_steps exT_xy) (exT_e0, exT_P0) in (map (hd []) o, ok))
+  = ([[1]; [5#2]; [5#2]; [4]]%Q, true).
+Proof. vm_compute. repeat split; reflexivity. Qed.
+(* unforced: the readout's own previous prediction *)
+Example C05_train_unforced_example :
+  exT_seen exT exT_recv 1 false (exT_steps exT_xy) (exT_e0, exT_P0, no_pov) =
+  (let '(_, _, o, _) := train_call exT 1 false false (exT_steps exT_xy) (exT_e0, exT_P0) in
+   Some [0%Q] :: map (fun row => Some (nth 1 row [])) (removelast o)) /\
+  nth 2 (exT_seen exT exT_recv 1 false (exT_steps exT_xy) (exT_e0, exT_P0, no_pov)) None <> Some [0%Q].
+Proof. vm_compute. split; [reflexivity|discriminate]. Qed.
+
+(* ---- teacher node: inp(0) >> [R(1): x + fb >> readout(2), T(3): 3x + 1], R <<= readout, Y = T; X = 1 2 3 4, so T = 4 7 10 13 *)
+Definition exN_base : @model Q :=
+  mkModel [mkND 0 (kfwd KId) None 1; mkND 1 (kfwd (KFbAdd 1)) (Some (FbNode 2)) 1; mkND 2 (kfwd KId) None 1; mkND 3 (kfwd (KFun 3 1)) None 1]%Q
+          (fun n => match n with 1 => [0] | 2 => [1] | 3 => [0] | _ => [] end) [2; 3].
+Definition exN : @tmodel Q := mkTM exN_base [mkRS 2 (RuleRLS true) 1 (TNode 3)].
+Definition exN_steps (xs : list Q) : list (@tstep Q) :=
+  map (fun x => mkTS (fun n => match n with 0 => Some [x] | _ => None end) (fun _ => None)) xs.
+Definition exN_recv : @ndesc Q := mkND 1 (kfwd (KFbAdd 1%Q)) (Some (FbNode 2)) 1.
+(* the property's values 0, T0, T1, T2 for learn_every = 1 and 2 alike ... *)
+Example C05_train_teacher_node_example :
+  exT_seen exN exN_recv 1 true (exN_steps [1; 2; 3; 4]%Q) (exT_e0, exT_P0, init_pov exN true) = [Some [0]; Some [4]; Some [7]; Some [10]]%Q /\
+  exT_seen exN exN_recv 2 true (exN_steps [1; 2; 3; 4]%Q) (exT_e0, exT_P0, init_pov exN true) = [Some [0]; Some [4]; Some [7]; Some [10]]%Q.
+Proof. vm_compute. split; reflexivity. Qed.
+(* ... and zero again at the first step of a second call, although the readout's last real output is not zero
+   (both were wrong before 7fe3c48: known_findings train:teacher-node:not-forced-after-ungated-step / first-step-not-zero) *)
+Example C05_train_teacher_node_second_call_example :
+  let '(e1, P1, _, _) := TrainModel.train_call exN 1 true false (exN_steps [1; 2; 3; 4]%Q) (exT_e0, exT_P0) in
+  exT_seen exN exN_recv 1 true (exN_steps [1; 2]%Q) (e1, P1, init_pov exN true) = [Some [0]; Some [4]]%Q /\ st (e1 2) <> [0%Q].
+Proof. vm_compute. split; [reflexivity|discriminate]. Qed.
+(* ... while the states of the receiver under array targets do not depend on learn_every (instance of C05_train_forced_states_indep) *)
+Example C05_train_forced_states_indep_example :
+  (let '(_, _, o, _) := train_call exT 1 true false (exT_steps exT_xy) (exT_e0, exT_P0) in map (hd []) o) =
+  (let '(_, _, o, _) := train_call exT 3 true false (exT_steps exT_xy) (exT_e0, fun _ => rls_init true 1 1 (1#4)%Q) in map (hd []) o) /\
+  (let '(_, P, _, _) := train_call exT 1 true false (exT_steps exT_xy) (exT_e0, exT_P0) in Wout (P 1)) <>
+  (let '(_, P, _, _) := train_call exT 3 true false (exT_steps exT_xy) (exT_e0, exT_P0) in Wout (P 1)).
+Proof. vm_compute. split; [reflexivity|discriminate]. Qed.
+
+Print Assumptions C05_train_forced_array_first.
+Print Assumptions C05_train_forced_array_later.
+Print Assumptions C05_train_forced_array_trace.
+Print Assumptions C05_train_unforced_own_output.
+Print Assumptions C05_train_unforced_trace.
+Print Assumptions C05_train_forced_teacher_first.
+Print Assumptions C05_train_forced_teacher_later.
+Print Assumptions C05_train_forced_teacher_trace.
+Print Assumptions C05_train_params_only_at_gated_steps.
+Print Assumptions C05_train_forced_states_indep.
